@@ -27,14 +27,18 @@ RESERVED_PROPERTIES = (
 
 def _docstring(text: str) -> str:
     """Render text as a docstring literal which evaluates back to it."""
-    escaped = "".join(
-        char
-        if char == "\n" or (char.isprintable() and char != "\\")
-        else char.encode("unicode_escape").decode("ascii")
-        for char in text
-    ).replace('"""', '\\"\\"\\"')
-    if escaped.endswith('"'):
-        escaped = escaped[:-1] + '\\"'
+
+    def escape(index: int, char: str) -> str:
+        if char == '"':
+            # Only quotes which could close the literal need escaping.
+            adjacent = text[max(index - 1, 0) : index + 2]
+            last = index == len(text) - 1
+            return '\\"' if last or adjacent.count('"') > 1 else char
+        if char == "\n" or (char.isprintable() and char != "\\"):
+            return char
+        return char.encode("unicode_escape").decode("ascii")
+
+    escaped = "".join(escape(*item) for item in enumerate(text))
     return f'"""{escaped}"""'
 
 
